@@ -61,16 +61,13 @@ def run(tier, seed, replay=None):
         except Exception:
             pass
     if want_binary:
-        tdir = os.path.join(core.REPO, "target")     # shared with C06 / the CLI samplers (/repo/target is git-ignored there)
-        with core.Lock("cargo"):
-            rc, out = core.sh(["cargo", "build", "--release", "--offline", "--bin", "sk", "--manifest-path",
-                               os.path.join(core.REPO, "Cargo.toml"), "--target-dir", tdir])
-        if rc != 0:
+        try:
+            core.build_sk()          # sets VERIF_SK_BIN for the harness
+        except core.BuildError as e:
             path = core.write_replay(ID, seed, "build", dict(kind="harness-build-broken",
-                                     theorem_or_stream="cargo build --release --bin sk", detail=out[-4000:]))
+                                     theorem_or_stream="cargo build of the sk binary", detail=e.detail))
             print("VIOLATION property=%s replay=%s no-failing-input-found" % (ID, path))
             return 1
-        core.ENV["VERIF_SK_BIN"] = os.path.join(tdir, "release", "sk")
     return core.run_property(sys.modules[__name__], tier, seed, replay)
 
 
